@@ -16,3 +16,22 @@ Print Assumptions C11_bound.
    discipline; stated for the concrete table *)
 Theorem C11_fast_nopanic : fast_nopanic_stmt.  Proof. exact fast_nopanic. Qed.
 Print Assumptions C11_fast_nopanic.
+
+(* ---- the fast compressor AS TRANSLATED from block.go on this run (GenCompressBody.v) ----
+   the translated CompressBlockBound and blockHash are the functions the models are built from, and for
+   every source of at most 14 bytes (the `goto lastLiterals` path: no match is possible) the translated
+   method agrees with the model for EVERY destination, spare capacity, prior object state and fuel:
+   (0, nil) below the bound, else the block `token, literals` written to dst and nothing else. *)
+From LZ4V Require Import GoT GenCompressBody GenCompressBodyProofs.
+Theorem C11_translated_bound : forall n, - 2 ^ 61 <= n <= 2 ^ 61 ->
+  GenCompressBody.lz4block_CompressBlockBound n = GenBlock.lz4block_CompressBlockBound n.
+Proof. exact CompressBlockBound_eq. Qed.
+Print Assumptions C11_translated_bound.
+Theorem C11_translated_short_sources : forall fuel s0 table src src_spare dst dst_spare,
+  zlen src <= 14 ->
+  agrees (run_model table src dst)
+         (lz4block_Compressor_CompressBlock fuel
+            (init_lz4block_Compressor_CompressBlock_fresh src src_spare dst dst_spare s0))
+         dst dst_spare = true.
+Proof. exact short_src_refines. Qed.
+Print Assumptions C11_translated_short_sources.
